@@ -98,6 +98,7 @@ def check(ctx):
         ctx.undecided('SIB', 'unpack_sections / unpack_lots agree on the range skeleton', 'one skeleton not recognised')
     ctx.attempt(_routes)
     ctx.attempt(_sibling_through)
+    ctx.attempt(_siblings_and_resets)
     from .c06 import ilots_after_l          # 'integer lot numbers' of the statement
     ctx.attempt(ilots_after_l)
     unp = [f for f in ctx.repo.funcs.values() if f.module.name.endswith('unpack.unpackers')]
@@ -367,6 +368,50 @@ def _sibling_through(ctx):
                        f"(`{norm(vals[[f for f, _ in vals].index(culprit)][1][-1])[:80]}`) while its sibling does not: ranges written "
                        f"with a repeated word ('Lot 1 - Lot 3') are expanded by one unpacker and not by the other",
             key=f"SIB|found_through|{culprit.qualname}", where=culprit.loc)
+
+
+def _siblings_and_resets(ctx):
+    """(a) Both unpackers read the previously unpacked number from the same
+    end of their working list (the end they append to).  (b) SecFinder clears
+    the flags of an earlier pass BEFORE it scans, never after: a reset behind
+    the scan loop wipes what this pass has just staged (a descending range
+    found by the cautious second pass loses its nonsequential warning)."""
+    ends = []
+    for spec, lst in (('SecUnpacker.unpack_sections', 'working_sec_list'), ('LotUnpacker.unpack_lots', 'working_lot_list')):
+        fi = ctx.repo.func(spec)
+        for a_ in walk_local(fi.node):
+            if isinstance(a_, ast.Assign) and isinstance(a_.targets[0], ast.Name) and a_.targets[0].id.startswith('previous_') \
+                    and isinstance(a_.value, ast.Subscript) and norm(a_.value.value) == lst:
+                ends.append((fi, a_, norm(a_.value.slice)))
+    if len(ends) == 2:
+        appended = all(any(isinstance(c, ast.Call) and isinstance(c.func, ast.Attribute) and c.func.attr == 'append'
+                           and norm(c.func.value) in ('working_sec_list', 'working_lot_list') for c in ast.walk(f.node))
+                       for f, _a, _k in ends)
+        same = ends[0][2] == ends[1][2]
+        odd = next(((f, a_) for f, a_, k in ends if k != '-1'), None)
+        ctx.tri(same and ends[0][2] == '-1', (not same) or (appended and odd is not None), 'SIB',
+                'both unpackers take the previous number from the end they append to ([-1])',
+                detail_bad=(f"`{norm(odd[1])}` in {odd[0].qualname} reads the other end of the list: the end of a range is taken from "
+                            f"the first item unpacked so far instead of the neighbour, so 'Sec 1 - 3, 5' expands towards 5")
+                if odd else '', key="SIB|unpackers|previous-end", where=common.loc(odd[0], odd[1]) if odd else None)
+    else:
+        ctx.undecided('SIB', 'both unpackers take the previous number from the end they append to', 'previous_* lookups not recognised')
+    sf = ctx.repo.func('SecFinder.findall_matching_sec')
+    loops = [i for i, st in enumerate(sf.node.body) if isinstance(st, (ast.For, ast.While))]
+    if not loops:
+        ctx.undecided('ORDER', 'SecFinder resets staged flags before scanning', 'scan loop not found')
+        return
+    late = []
+    for i, st in enumerate(sf.node.body):
+        if i > loops[0]:
+            for x in ast.walk(st):
+                if isinstance(x, ast.Assign) and any(norm(t) in ('self.flags', 'self.flag_lines') for t in x.targets) \
+                        and isinstance(x.value, (ast.List, ast.Tuple)) and not x.value.elts:
+                    late.append(x)
+    ctx.check(not late, 'ORDER', 'SecFinder resets staged flags before scanning, never after',
+              detail_bad=f"`{norm(late[0]) if late else ''}` runs after the scan loop: the warnings staged by this very pass "
+                         f"(nonsequential_sections from the unpacker) are wiped",
+              key="ORDER|SecFinder|late-reset", where=common.loc(sf, late[0]) if late else None)
 
 
 def _routes(ctx):
